@@ -40,7 +40,9 @@ Record item := { i_tag : Z; i_kind : kind; i_lo : Z; i_hi : Z; i_mult : mult; i_
 
 (* c_substream = false: the items are read from the enclosing stream right after the 8 header bytes; the
    length field is not used and nothing is checked after the last item (RequestMessage / ResponseMessage) *)
-Record cls := { c_name : string; c_rd : list item; c_wr : list item; c_oversize_check : bool; c_substream : bool }.
+(* c_minver: `if kmip_version < V: raise VersionNotSupported` at the top of read and write (0 = none) *)
+Record cls := { c_name : string; c_rd : list item; c_wr : list item; c_oversize_check : bool; c_substream : bool;
+                c_minver : Z }.
 
 (* a row of a tag table: tag, kind of the element, version range lo <= v < hi (enums.is_attribute) *)
 Definition trow := (Z * kind * Z * Z)%type.
@@ -215,6 +217,7 @@ Fixpoint wr (fuel : nat) (tag : Z) (k : kind) (x : value) {struct fuel} : option
           match find_cls E c with
           | None => None
           | Some k =>
+              if v <? c_minver k then None else
               match wr_items (wr f) [] (filter (active v) (c_wr k)) fields with
               | None => None
               | Some body => with_hdr tag STRUCT_CODE (zlen body) body
@@ -265,7 +268,7 @@ Fixpoint wfv (fuel : nat) (k : kind) (x : value) {struct fuel} : bool :=
       | KStruct c, VS fields =>
           match find_cls E c with
           | None => false
-          | Some k => wf_items E v (wfv f) [] (filter (active v) (c_wr k)) fields
+          | Some k => negb (v <? c_minver k) && wf_items E v (wfv f) [] (filter (active v) (c_wr k)) fields
           end
       | KTagged t, VT tg y =>
           match find_row E v t tg with
@@ -412,6 +415,7 @@ Fixpoint rd (fuel : nat) (tag : Z) (k : kind) (bs : bytes) {struct fuel} : optio
           match find_cls E c with
           | None => None
           | Some k =>
+              if v <? c_minver k then None else
               match dec_hdr tag STRUCT_CODE bs with
               | None => None
               | Some (len, r) =>
